@@ -222,12 +222,12 @@ def get_couchdb_revision(url: str) -> Optional[str]:
 
 def delete_couchdb_revision(url: str):
     """
-    Delete the CouchDB revision from the revision store for the given URL to a CouchDB Document
+    Delete the CouchDB revision from the revision store for the given URL to a CouchDB Document, if there is one
 
     :param url: URL to the CouchDB document
     """
     with _revision_store_lock:
-        del _revision_store[url]
+        _revision_store.pop(url, None)
 
 
 class CouchDBObjectStore(model.AbstractObjectStore):
@@ -417,8 +417,9 @@ class CouchDBObjectStore(model.AbstractObjectStore):
         delete_couchdb_revision("{}/{}/{}".format(self.url,
                                                   self.database_name,
                                                   self._transform_id(x.id)))
+        # The object may never have been retrieved through this store (or process): there is no cache entry then
         with self._object_cache_lock:
-            del self._object_cache[x.id]
+            self._object_cache.pop(x.id, None)
         x.source = ""
 
     def __contains__(self, x: object) -> bool:
